@@ -406,6 +406,11 @@ pub fn run(sc: &Scenario) -> Outcome {
 }
 
 pub fn run_with(sc: &Scenario, extras: Extras) -> Outcome {
+    // hook (cfg aws_s2n_quic_verif in s2n-quic-transport's ApplicationSpace::key_limits): read when a connection is created
+    match sc.key_update_after {
+        Some(n) => std::env::set_var("S2N_QUIC_VERIF_KEY_UPDATE_AFTER", n.max(2).to_string()),
+        None => std::env::remove_var("S2N_QUIC_VERIF_KEY_UPDATE_AFTER"),
+    }
     let (net, net_shared) = ScriptedNet::new(sc.net.clone());
     let trace: Trace = Arc::new(Mutex::new(TraceState { no_payload_check: extras.no_payload_check || sc.evil.is_some(), ..Default::default() }));
     let app = App::default();
